@@ -124,7 +124,7 @@ fn c06_fork_scripts_match_reference() {
         for s in &cat {
             cases += 1;
             let (wt, wa, wp) = ref_fork(s, ver);
-            let r = match std::panic::catch_unwind(|| eval_from_bytes(s, ver)) { Ok(r) => r, Err(_) => { fail(suite, "C14:evaluation_never_panics", &format!("{} {}", coin, hex(s)), "panic", "a result"); continue; } };
+            let r = match std::panic::catch_unwind(|| eval_from_bytes(s, ver)) { Ok(r) => r, Err(_) => { fail(suite, "C06,C14:evaluation_never_panics", &format!("{} {}", coin, hex(s)), "panic", "a result"); continue; } };
             let gt = format!("{}", r.pattern);
             let inp = format!("{} script={}", coin, hex(s));
             let c = if wt == "OpReturn" || gt == "OpReturn" { "C06,C16:typed_by_template" } else { "C06:typed_by_template" };
@@ -225,7 +225,7 @@ fn c05_bitcoin_scripts_match_reference() {
         for s in &cat {
             cases += 1;
             let (wt, wa, wp) = ref_btc(s, ver);
-            let r = match std::panic::catch_unwind(|| eval_from_bytes(s, ver)) { Ok(r) => r, Err(_) => { fail(suite, "C14:evaluation_never_panics", &format!("ver={:#x} {}", ver, hex(s)), "panic", "a result"); continue; } };
+            let r = match std::panic::catch_unwind(|| eval_from_bytes(s, ver)) { Ok(r) => r, Err(_) => { fail(suite, "C05,C14:evaluation_never_panics", &format!("ver={:#x} {}", ver, hex(s)), "panic", "a result"); continue; } };
             let gt = format!("{}", r.pattern);
             let inp = format!("version_id={:#x} script={}", ver, if s.len() > 200 { format!("{}..({} bytes)", hex(&s[..40]), s.len()) } else { hex(s) });
             let c = if wt == "NotRecognised" && gt == "Pay2MultiSig" && multisig_with_non_numeric_n(s) { "C05:script_type_equals_reference/multisig_with_non_numeric_n" }
